@@ -12,6 +12,7 @@ import (
 	"fmt"
 	"math"
 	"os"
+	"os/exec"
 	"strconv"
 	"strings"
 	"testing"
@@ -244,9 +245,44 @@ func runOne(m *model, fn func()) (res result) {
 	return res
 }
 
+// ---- child processes: what only happens while a process starts
+//
+// Package-level initialisers (jtp builds its cache from the configuration
+// when the program starts) cannot be run again natively. A harness that is
+// about them re-executes the test binary with the environment it wants
+// (RunChild); the child runs the registered function instead of the models
+// and exits. Under the engine the harness calls Reinit instead, which runs
+// the package's real initialisers again.
+
+var children = map[string]func(){}
+
+// RegisterChild names a function a child process can be asked to run.
+func RegisterChild(name string, fn func()) { children[name] = fn }
+
+// Reinit (engine only): run the package's initialisers again.
+func Reinit(pkg string) {}
+
+// RunChild re-executes this test binary with extra environment and runs the
+// registered function there; it reports whether the child ended normally.
+func RunChild(name string, env []string) (ok bool, output string) {
+	cmd := exec.Command(os.Args[0], "-test.run", "^TestVerifReplay$")
+	cmd.Env = append(append(os.Environ(), env...), "VERIF_CHILD="+name)
+	out, err := cmd.CombinedOutput()
+	return err == nil, string(out)
+}
+
 // ReplayMain runs every model of $VERIF_MODELS (JSON lines) through its
 // harness and writes one result line each to $VERIF_OUT.
 func ReplayMain(t *testing.T, harnesses map[string]func()) {
+	if c := os.Getenv("VERIF_CHILD"); c != "" {
+		fn := children[c]
+		if fn == nil {
+			fmt.Fprintln(os.Stderr, "no such child function:", c)
+			os.Exit(3)
+		}
+		fn()
+		os.Exit(0)
+	}
 	in := os.Getenv("VERIF_MODELS")
 	if in == "" {
 		t.Skip("VERIF_MODELS not set")
